@@ -6,7 +6,7 @@ from props import C08
 
 ID = 'C07'
 PROPS_FILE = 'theories/props/Properties_C07.v'
-CONE = ['theories/BufLog.v', 'theories/PLog.v', 'theories/Repl.v', 'theories/proofs/C07.v']
+CONE = ['theories/BufLog.v', 'theories/PLog.v', 'theories/Repl.v', 'theories/proofs/C07.v', 'theories/AbstractRaft.v', 'theories/proofs/AR_election.v', 'theories/proofs/AR_logs.v', 'theories/proofs/AR_complete.v', 'theories/proofs/AR_sms.v']
 IMPORTS = C08.IMPORTS
 
 def gen_cases(run, thorough):
